@@ -16,6 +16,8 @@ import KotoVerif.Lemmas.C14KeyPER
 import KotoVerif.Lemmas.C14Hash
 import KotoVerif.Lemmas.C14NumOrder
 import KotoVerif.Lemmas.C14TrySort
+import KotoVerif.Lemmas.C14KeyOrder
+import KotoVerif.Lemmas.C14KeyOrderNum
 import KotoVerif.Lemmas.C14DeepCopy
 import KotoVerif.Lemmas.C14DeepCopySnap
 
@@ -345,9 +347,7 @@ theorem failed_sort_keeps_entries (F : FloatOps) (mech : Bool) (self : HVal) (xs
     · exact sortBy_perm _ xs
     · exact trySortBy_perm _ xs
   · simp only [applyM]
-    split
-    · exact sortBy_perm _ es
-    · exact trySortBy_perm _ es
+    exact sortBy_perm _ es
   · simp only [applyM]
     split
     · exact sortBy_perm _ es
@@ -366,12 +366,49 @@ theorem failed_retain_sublist (p : HVal → Option Bool) (xs : List HVal) :
     · exact List.Sublist.cons_cons x ih
     · exact List.Sublist.cons x ih
 
-/-- finding F-C14-5 in the model: on keys of mixed kinds `ValueKey::partial_cmp` is not a preorder
-and `map.sort()` leaves `2` before `1` -/
-theorem map_sort_mixed_keys_witness :
+/-- `ValueKey::partial_cmp` (since fix abae06d, finding F-C14-5) is a total order on keys of every
+kind — null, booleans, numbers, strings, ranges, tuples, arbitrarily nested — that is consistent with
+key equality: antisymmetric, `Equal` exactly on equal keys, and transitive (as a total preorder for
+sorting). Numbers enter through the float hypotheses `FloatLaws` / `NumOrderLaws` (no NaN, integers
+that convert exactly, cf. F-C14-3). -/
+theorem key_order_consistent {F : FloatOps} {S : Int64 → Prop} (hF : FloatLaws F) (hL : NumOrderLaws F S)
+    (a b : GoodKey F S) :
+    keyCmp F b.1 a.1 = (keyCmp F a.1 b.1).swap ∧ (keyCmp F a.1 b.1 = .eq ↔ keyEq F a.1 b.1 = true) :=
+  ⟨keyCmp_swap (numCmp_laws hF hL) a.1 b.1 a.2 b.2, keyCmp_eq_iff (numCmp_laws hF hL) a.1 b.1 a.2 b.2⟩
+
+theorem key_order_total {F : FloatOps} {S : Int64 → Prop} (hF : FloatLaws F) (hL : NumOrderLaws F S) :
+    TotalPreorder (fun (a b : GoodKey F S) => keyCmp F a.1 b.1 == .lt) :=
+  keyCmp_total_preorder hF hL
+
+/-- so `map.sort()` yields an ordered, stable permutation for ALL key kinds: the model's `map.sort()`
+on the plain entries is the projection of the sort on entries-with-good-keys, to which
+`sort_sorted_perm_stable` applies -/
+theorem map_sort_all_kinds {F : FloatOps} {S : Int64 → Prop} (hF : FloatLaws F) (hL : NumOrderLaws F S)
+    (mech : Bool) (self : HVal) (es : List (GoodKey F S × HVal)) :
+    (applyM F mech self .sort (es.map (fun e => (e.1.1, e.2)))).1 =
+      (sortBy (fun (a b : GoodKey F S × HVal) => keyCmp F a.1.1 b.1.1 == .lt) es).map (fun e => (e.1.1, e.2)) ∧
+    (sortBy (fun (a b : GoodKey F S × HVal) => keyCmp F a.1.1 b.1.1 == .lt) es).Perm es ∧
+    Sorted (fun (a b : GoodKey F S × HVal) => keyCmp F a.1.1 b.1.1 == .lt)
+      (sortBy (fun (a b : GoodKey F S × HVal) => keyCmp F a.1.1 b.1.1 == .lt) es) ∧
+    (∀ x, (sortBy (fun (a b : GoodKey F S × HVal) => keyCmp F a.1.1 b.1.1 == .lt) es).filter
+        (equiv (fun (a b : GoodKey F S × HVal) => keyCmp F a.1.1 b.1.1 == .lt) x) =
+      es.filter (equiv (fun (a b : GoodKey F S × HVal) => keyCmp F a.1.1 b.1.1 == .lt) x)) := by
+  have hT : TotalPreorder (fun (a b : GoodKey F S × HVal) => keyCmp F a.1.1 b.1.1 == .lt) :=
+    ⟨fun a b h => (keyCmp_total_preorder hF hL).asymm a.1 b.1 h,
+     fun a b c h1 h2 => (keyCmp_total_preorder hF hL).le_trans a.1 b.1 c.1 h1 h2⟩
+  refine ⟨?_, sortBy_perm _ es, sortBy_sorted hT es, fun x => sortBy_stable hT x es⟩
+  simp only [applyM, sortEntries]
+  exact (map_sortBy (fun (e : GoodKey F S × HVal) => (e.1.1, e.2))
+    (fun (a b : Val × HVal) => keyCmp F a.1 b.1 == .lt) es).symm
+
+example : NumCmpLaws Equal.F0 (goodNum Equal.F0 (fun _ => True)) := numCmp_laws F0_laws F0_numOrderLaws
+
+/-- the former witness of F-C14-5 (fixed by abae06d): `{2, 'x', 'y', 1}` is now sorted to
+`1, 2, 'x', 'y'` -/
+theorem map_sort_mixed_keys_fixed :
     ((applyM Equal.F0 false .null .sort
         [(.num (.i 2), .null), (.str [120], .null), (.str [121], .null), (.num (.i 1), .null)]).1.map Prod.fst)
-      = [.num (.i 2), .str [120], .str [121], .num (.i 1)] := by rfl
+      = [.num (.i 1), .num (.i 2), .str [120], .str [121]] := by rfl
 
 /-- the number comparator (`<` on `KNumber`, as `compare_values` applies it) is a total preorder on
 numbers without NaN whose integers convert to `f64` strictly monotonically (`S`; for doubles
